@@ -301,3 +301,7 @@ def run(ctx: Context) -> None:  # noqa: F811
     _core_run(ctx)
     ctx.rep.rule("C19.R8", "URL and Origin are immutable value objects: no attribute store outside their constructors (the caller's URL instance is passed through as is)")
     _value_objects_immutable(ctx)
+    from . import plumb
+
+    ctx.rep.rule('C19.R9', 'a URL / Origin rebuilt from another one copies scheme, host and port from the same-named components of the same object')
+    plumb.derived_identity(ctx, 'C19.R9')
